@@ -850,12 +850,17 @@ func runMidicatListenTo(c *mon.Ctx, r *mon.Rand, idx int64) {
 			msgs = append(msgs, midi.SysEx(p))
 		}
 	}
+	// every sysex length: history idx covers the total lengths 2+70*idx .. 71+70*idx (quick: 2..1121, thorough: to 21001)
+	for ln := 2 + 70*int(idx); ln < 72+70*int(idx); ln++ {
+		msgs = append(msgs, midi.SysEx(r.Bytes7(ln-2)))
+		c.Count("mc_listento_sysex_lengths_swept", 1)
+	}
 	probe := midi.NoteOn(15, 1, 1)
 	sentinel := midi.NoteOn(14, 127, 127)
 	desc := map[string]any{"history": "midi.ListenTo + midi.SendTo on the process-backed driver", "messages": func() []string {
 		var l []string
 		for _, m := range msgs {
-			l = append(l, mon.Hex(m))
+			l = append(l, mon.Hex(head17(m, 24))+fmt.Sprintf(" (%d bytes)", len(m)))
 		}
 		return l
 	}()}
@@ -920,46 +925,102 @@ func runMidicatListenTo(c *mon.Ctx, r *mon.Rand, idx int64) {
 		return
 	}
 	// let the probes still in flight drain before the measured part (they are filtered by value anyway)
-	for _, m := range msgs {
-		var e error
-		if !guarded(c, h, "Send", func() { e = snd(m) }) {
-			return
+	round := func(label string, batch []midi.Message, pauseAfterFirst time.Duration) bool {
+		mu.Lock()
+		got = got[:0]
+		mu.Unlock()
+		desc["round"] = label
+		for k, m := range batch {
+			var e error
+			if !guarded(c, h, "Send", func() { e = snd(m) }) {
+				return false
+			}
+			if e != nil {
+				c.Violation("mc:send-error", fmt.Sprintf("%s: Send of % X (%d bytes) on an open out-port failed: %v (IsOpen %v)", label, head17(m, 16), len(m), e, outs[0].IsOpen()), desc, nil, e.Error())
+				return false
+			}
+			c.Count("mc_listento_sends", 1)
+			if len(m) < 200 || len(m)%100 == 0 {
+				c.SetAdd("mc_listento_message_lengths", fmt.Sprint(len(m)))
+			}
+			if k == 0 && pauseAfterFirst > 0 {
+				time.Sleep(pauseAfterFirst)
+				if !outs[0].IsOpen() {
+					c.Violation("mc:isopen", fmt.Sprintf("%s: the out-port reports IsOpen() == false although it was opened and not closed since", label), desc, true, false)
+					return false
+				}
+			}
 		}
-		if e != nil {
-			c.Violation("mc:send-error", fmt.Sprintf("Send of % X failed: %v", []byte(m), e), desc, nil, e.Error())
-			return
+		if e := snd(sentinel); e != nil {
+			c.Violation("mc:send-error", label+": Send of the sentinel failed: "+e.Error(), desc, nil, e.Error())
+			return false
 		}
-		c.Count("mc_listento_sends", 1)
-		c.SetAdd("mc_listento_message_lengths", fmt.Sprint(len(m)))
+		select {
+		case <-done:
+		case <-time.After(waitObserve):
+			c.Inconclusive(fmt.Sprintf("ListenTo history %d (%s): sentinel not observed within %v", idx, label, waitObserve))
+			return false
+		}
+		mu.Lock()
+		defer mu.Unlock()
+		var gl []string
+		for _, g := range got {
+			gl = append(gl, mon.Hex(head17(g, 24))+fmt.Sprintf(" (%d bytes)", len(g)))
+		}
+		if len(got) != len(batch) {
+			first := ""
+			for k := range batch {
+				if k >= len(got) || !bytes.Equal(got[k], batch[k]) {
+					first = fmt.Sprintf("; first message that did not arrive in its place: % X (%d bytes)", head17(batch[k], 16), len(batch[k]))
+					break
+				}
+			}
+			c.Violation("mc:listento-count", fmt.Sprintf("%s: %d messages sent with midi.SendTo before the sentinel that arrived, %d delivered by midi.ListenTo%s", label, len(batch), len(got), first), desc, len(batch), gl)
+			return false
+		}
+		for k := range batch {
+			if !bytes.Equal(got[k], batch[k]) {
+				c.Violation("mc:listento-value", fmt.Sprintf("%s: message %d sent as % X (%d bytes) arrived as % X (%d bytes)", label, k, head17(batch[k], 24), len(batch[k]), head17(got[k], 24), len(got[k])), desc, mon.Hex(batch[k]), mon.Hex(got[k]))
+				return false
+			}
+			c.Count("mc_listento_deliveries", 1)
+		}
+		return true
 	}
-	if e := snd(sentinel); e != nil {
-		c.Violation("mc:send-error", "Send of the sentinel failed: "+e.Error(), desc, nil, e.Error())
+	if !round("first session of the out-port", msgs, 0) {
 		return
 	}
-	select {
-	case <-done:
-	case <-time.After(waitObserve):
-		c.Inconclusive(fmt.Sprintf("ListenTo history %d: sentinel not observed within %v", idx, waitObserve))
-		return
-	}
-	mu.Lock()
-	defer mu.Unlock()
 	c.Count("mc_listento_histories", 1)
-	var gl []string
-	for _, g := range got {
-		gl = append(gl, mon.Hex(g))
-	}
-	if len(got) != len(msgs) {
-		c.Violation("mc:listento-count", fmt.Sprintf("%d messages sent with midi.SendTo before the sentinel that arrived, %d delivered by midi.ListenTo", len(msgs), len(got)), desc, len(msgs), gl)
-		return
-	}
-	for k := range msgs {
-		if !bytes.Equal(got[k], msgs[k]) {
-			c.Violation("mc:listento-value", fmt.Sprintf("message %d sent as % X arrived as % X", k, []byte(msgs[k]), got[k]), desc, mon.Hex(msgs[k]), mon.Hex(got[k]))
+	// the out-port closed and opened again at once (a device re-selected in a menu): the new session works,
+	// also a few milliseconds later, when everything that belonged to the old session has wound down
+	for cyc := 0; cyc < 3; cyc++ {
+		var e1, e2 error
+		if !guarded(c, h, "out.Close; out.Open", func() {
+			e1 = outs[0].Close()
+			if cyc == 2 {
+				time.Sleep(time.Duration(r.Intn(3000)) * time.Microsecond)
+			}
+			e2 = outs[0].Open()
+		}) {
 			return
 		}
-		c.Count("mc_listento_deliveries", 1)
+		if e1 != nil || e2 != nil || !outs[0].IsOpen() {
+			c.Violation("mc:reopen", fmt.Sprintf("out.Close() = %v, out.Open() = %v, IsOpen() = %v", e1, e2, outs[0].IsOpen()), desc, nil, nil)
+			return
+		}
+		c.Count("mc_out_reopened_at_once", 1)
+		batch := []midi.Message{midi.NoteOn(ch(), d(), 1+d()%127), midi.ProgramChange(ch(), d()), midi.SysEx(r.Bytes7(r.Pick(1, 30, 300))), midi.ControlChange(ch(), d(), d())}
+		if !round(fmt.Sprintf("out-port closed and opened again at once (cycle %d)", cyc+1), batch, time.Duration(r.Pick(1, 5, 20))*time.Millisecond) {
+			return
+		}
 	}
+}
+
+func head17(b []byte, n int) []byte {
+	if len(b) > n {
+		return b[:n]
+	}
+	return b
 }
 
 // runBurstBehindSlowCallback: while one listener callback stays busy for two seconds, eight senders
